@@ -18,7 +18,10 @@ META = dict(
          "on a real TxDownloadManagerImpl with real signed P2WSH transactions validated by the real mempool on a regtest node: results "
          "(dropped inv, requested hashes, validated / verdict class) and the projected state (mempool and orphanage membership, membership of "
          "every hash in the three filters, live announcers per hash, AlreadyHaveTx(W)) are compared after every step.",
-    note="The glue (tx message branch, ProcessOrphanTx loop, forwarding of validation signals) is replicated in the adapter from net_processing.cpp; "
+    note="INV mode: a difference between model and implementation is a violation only if it concerns what the property states (W or T in a filter, "
+         "AlreadyHaveTx(W) or AlreadyHaveTx(txid T) turning true, nobody left to ask for W, W not requested from the peer whose turn it is, W's announcement dropped, G not validated / "
+         "accepted / in the pool); any other difference (bookkeeping of the copies, orphan announcers, tracker state of other hashes) is counted "
+         "as a deviation and ends that behaviour. The glue (tx message branch, ProcessOrphanTx loop, forwarding of validation signals) is replicated in the adapter from net_processing.cpp; "
          "PeerManager itself is not in the loop. Peers are wtxid-relay only (the property's scope); the txid T is observed through the filters. "
          "Once G is in the pool or confirmed, T's membership in the reject filter is not compared (it depends on the order in which orphaned copies "
          "are reconsidered and the property no longer cares). No reorgs, no mempool eviction, no reconsiderable (fee) rejections in the universe.",
@@ -28,15 +31,74 @@ META = dict(
 ACTIONS = ("inv", "poll", "notfound", "tx", "block")
 
 
+def property_difference(step, diff, prev):
+    """Does a difference between the model's prediction and the implementation concern what C64 states (the genuine transaction being
+    rejected, treated as already known, no longer requested, or not accepted)? Everything else is bookkeeping around it: a deviation."""
+    a, r, exp = step["a"], step["r"], step["exp"]
+    for key in diff["keys"]:
+        obs = diff["obs"].get(key)
+        if key == "state.ahW" and obs is True and exp["ahW"] is False:
+            return "AlreadyHaveTx(W) is true while the genuine transaction is wanted"
+        if key == "state.rejT" and obs == "yes" and exp["rejT"] == "no":
+            return "the txid T is in the reject filter while the genuine transaction is wanted"
+        if key in ("state.rej", "state.recon", "state.conf"):
+            extra = set(obs) - set(exp[key[6:]])
+            if extra & {"W", "T"}:
+                return "%s holds %s although the model's does not" % (key[6:], sorted(extra & {"W", "T"}))
+        if key == "state.pool" and "G" in exp["pool"] and "G" not in obs:
+            return "the genuine transaction is not in the mempool"
+        if key == "state.ahT" and obs == "yes" and exp["ahT"] == "no":
+            return "AlreadyHaveTx(txid T) is true because of a copy, while the genuine transaction is wanted"
+        if key == "state.live.W" and exp["live"]["W"] and not obs and not (a[0] == "poll" and "req" in prev["hid"]["trk"]["W"]):
+            # (a request that times out differently from the model's 60 s is the peer's own timeout, not censorship)
+            return "no peer is left to ask for W"
+        if key == "result.ask" and "W" in r["ask"] and "W" not in obs:
+            return "W is not requested from the peer the tracker should ask"
+        if key in ("result.validated", "result.verdict") and a[0] == "tx" and a[2] == "G" and r["validated"] and r["verdict"] == "ok":
+            return "the genuine transaction was not validated and accepted (%s = %s)" % (key, obs)
+        if key == "result.dropped" and a[0] == "inv" and a[2] == "W" and r["dropped"] is False and obs is True:
+            return "the announcement of W was dropped as already known"
+    return None
+
+
 def run_set(ctx, binary, tests, what, haspar, stats):
-    res = ctx.run_harness(binary, "replay", tests, args=[1 if haspar else 0, "all"], name=what, timeout=3000)
+    args = [1 if haspar else 0, "all"]
+    res = ctx.run_harness(binary, "replay", tests, args=args, name=what, timeout=3000)
     ctx.evaluations += int(res["summary"]["tests"]); ctx.traces += int(res["summary"]["tests"])
     ctx.extra["replayed_steps"] = ctx.extra.get("replayed_steps", 0) + int(res["summary"]["steps"])
     for k, v in res["summary"].items():
         if k.startswith("act_") or k.startswith("verdict_"):
             stats[k] += int(v)
-    vflib.report_mismatches(ctx, binary, "replay", res, args=[1 if haspar else 0, "all"], adapter="txdownload", what_prefix="TxDownload %s: " % what,
-                            key_fn=lambda m, case: "%s:%s" % (what.split("_")[0], vflib.digest([m.get("action"), (m.get("why") or "")[:60]])))
+    reported = set()
+    for m in res["mismatches"] + res["aborts"]:
+        case = json.loads(res["lines"][m["index"]])
+        why = str(m.get("why", ""))
+        if m["kind"] == "abort":
+            reason = "abort: " + why
+        elif why.startswith("exception"):
+            stats["harness_exceptions"] += 1
+            stats["first_exception"] = stats.get("first_exception") or ("%s: %s" % (vflib.canon(m.get("action")), why))
+            continue
+        else:
+            diff = json.loads(why)
+            prev = case["steps"][m["step"] - 1]["exp"] if m["step"] > 0 else case["init"]
+            reason = property_difference(case["steps"][m["step"]], diff, prev)
+            if reason is None:
+                for k in diff["keys"]:
+                    stats["deviation_" + k] += 1
+                continue
+            reason += " (differing: %s)" % ", ".join(diff["keys"])
+        key = "%s:%s" % (what.split("_")[-1], vflib.digest([m.get("action"), reason[:50]]))
+        if key in reported or len(reported) >= 6:
+            continue
+        reported.add(key)
+        acts = [s["a"] for s in case["steps"][:m["step"] + 1]]
+
+        def confirm(case=case):
+            r2 = ctx.run_harness(binary, "replay", [json.dumps(case)], args=args, nproc=1, name="confirm")
+            return bool(r2["mismatches"] or r2["aborts"])
+        ctx.violation(key, "TxDownload %s: after %s: %s" % (what, vflib.canon(acts), reason),
+                      dict(adapter="txdownload", mode="replay", args=args, case=case, mismatch=m), confirm=confirm)
 
 
 def interesting(t):
@@ -89,7 +151,7 @@ def run(ctx):
         if len(beh) < num // 2:
             raise vflib.InfraError("%s: only %d behaviours" % (cfg, len(beh)))
         # the fans repeat the prefix of their behaviour: keep the behaviours and a seeded share of the fans
-        keep = [t for i, t in enumerate(fans) if (i * 2654435761 + ctx.seed) % (4 if quick else 1) == 0]
+        keep = [t for i, t in enumerate(fans) if (i * 2654435761 + ctx.seed) % (10 if quick else 2) == 0]
         tests = beh + keep
         for t in tests:
             per_action[t["steps"][-1]["a"][0]] += 1
@@ -105,7 +167,10 @@ def run(ctx):
         for v in ("ok", "missing", "script", "witmut", "stripped", "conflict", "known"):
             if not stats["verdict_" + v]:
                 raise vflib.InfraError("vacuity: the real mempool never returned verdict class %s (%s)" % (v, dict(stats)))
-    ctx.extra["replayed_per_action_and_verdict"] = dict(stats)
+    if stats["harness_exceptions"] and not ctx.violations:
+        raise vflib.InfraError("adapter exceptions: %d, first: %s" % (stats["harness_exceptions"], stats["first_exception"]))
+    ctx.extra["bookkeeping_deviations"] = {k[10:]: v for k, v in stats.items() if k.startswith("deviation_")}
+    ctx.extra["replayed_per_action_and_verdict"] = {k: v for k, v in stats.items() if k.startswith("act_") or k.startswith("verdict_")}
     ctx.assumptions += ["universe: one genuine transaction, three malleated copies, optionally one unconfirmed parent; two wtxid-relay peers",
                         "the adapter's glue around TxDownloadManagerImpl mirrors net_processing.cpp (tx branch, ProcessOrphanTx, validation callbacks)",
                         "rolling bloom filters are treated as exact sets (false positives 1e-6 are outside the model)"]
